@@ -228,6 +228,7 @@ type Conn struct {
 	GoAway   *RFrame
 	Frames   []RFrame // everything the server sent
 	AutoWU   bool
+	NoAck    bool // do not acknowledge the server's SETTINGS automatically
 	contStrm uint32
 	contBuf  []byte
 	contEnd  bool
@@ -287,7 +288,7 @@ func (c *Conn) Step() (RFrame, error) {
 	c.Frames = append(c.Frames, f)
 	switch f.Type {
 	case TSettings:
-		if f.Flags&FAck == 0 {
+		if f.Flags&FAck == 0 && !c.NoAck {
 			c.RW.Write(SettingsAck())
 		}
 	case TPing:
